@@ -162,7 +162,11 @@ func setOf(d tsdbx.Dump) map[triple]bool {
 	s := map[triple]bool{}
 	for k, ss := range d {
 		for _, x := range ss {
-			s[triple{k, x.T, x.ValKey()}] = true
+			v := x.ValKey()
+			if x.IsStale() {
+				v = "stale" // staleness markers compare equal whatever their sample type (see tsdbx.EqualDumps)
+			}
+			s[triple{k, x.T, v}] = true
 		}
 	}
 	return s
@@ -766,7 +770,19 @@ func run(c *core.Case) {
 		if len(restSp)+len(restMi) > 0 {
 			kind := "flushwal-block-mismatch"
 			why := ""
-			allOOO := len(restSp) == 0
+			// an out-of-order head sample at the timestamp of an in-order one shadows it in the read-write
+			// result: the flushed block then holds the in-order value (spurious) and lacks the
+			// out-of-order one (missing) - the same omission, seen at one timestamp
+			shadowed := 0
+			for _, sp := range restSp {
+				for _, mi := range restMi {
+					if mi.k == sp.k && mi.t == sp.t && !inOrderHead[mi] {
+						shadowed++
+						break
+					}
+				}
+			}
+			allOOO := len(restSp) == shadowed
 			for _, x := range restMi {
 				if inOrderHead[x] {
 					allOOO = false
